@@ -34,6 +34,18 @@ def pool(tier):
          mkcfg("HRevolve", max_n=7, ram=1, disk=2, uf=1, ub=1, wd=0, rd=0),
          mkcfg("DiskRevolve", max_n=8, ram=1), mkcfg("DiskRevolve", max_n=8, ram=1, uf=1, ub=1, wd=0, rd=0),
          mkcfg("PeriodicDiskRevolve", max_n=9, ram=1), mkcfg("PeriodicDiskRevolve", max_n=7, ram=2, uf=1, ub=1, wd=0, rd=0)]
+    # near-siblings: configurations that differ from another one in exactly one parameter
+    # (trajectory, storage, one cost) - a cache keyed on too little confuses exactly these
+    p += [mkcfg("Multistage", max_n=23, ram=0, disk=3, traj=0), mkcfg("Multistage", max_n=23, ram=0, disk=3, traj=1),
+          mkcfg("Multistage", max_n=13, ram=2, disk=2, traj=1), mkcfg("Multistage", max_n=7, ram=2, disk=2, traj=0),
+          mkcfg("Multistage", max_n=7, ram=2, disk=2, traj=1),
+          mkcfg("TwoLevel", N=12, passes=3, period=12, ram=2, st=0, traj=0),
+          mkcfg("TwoLevel", N=12, passes=3, period=12, ram=2, st=0, traj=1),
+          mkcfg("TwoLevel", N=12, passes=3, period=6, ram=2, st=0, traj=0),
+          mkcfg("Mixed", max_n=9, ram=3, st=0), mkcfg("Mixed", max_n=10, ram=3, st=1), mkcfg("Mixed", max_n=10, ram=4, st=1),
+          mkcfg("DiskRevolve", max_n=4, ram=1, uf=1, ub=3, wd=2, rd=2), mkcfg("DiskRevolve", max_n=4, ram=1, uf=1, ub=1, wd=2, rd=2),
+          mkcfg("HRevolve", max_n=7, ram=1, disk=1, uf=1, ub=3, wd=2, rd=2),
+          mkcfg("Revolve", max_n=6, ram=2, uf=1, ub=3, wd=2, rd=2)]
     if tier != "quick":
         p += [mkcfg("Multistage", max_n=20, ram=2, disk=2), mkcfg("Mixed", max_n=20, ram=3, st=0),
               mkcfg("Mixed", max_n=15, ram=4, st=1), mkcfg("HRevolve", max_n=12, ram=2, disk=2),
@@ -157,8 +169,33 @@ def check(ctx):
         refs.append(json.loads(o))
     # histories chosen by TLC
     ex = gen(ctx, 2, 2, 5 if q else 6, 2, 2)
-    sim = gen(ctx, len(cfgs), 3, 60, 14, 4, simulate=40 if q else 400, seed=ctx.seed)
+    sim = gen(ctx, len(cfgs), 3, 60, 14, 4, simulate=30 if q else 300, seed=ctx.seed)
     objs = replay(ex, cfgs, 0) + replay(sim, cfgs, 0)
+    # the same, over sub-pools of one class family each (objects of the same class meet often),
+    # and exhaustively over two objects of ONE configuration (shared class-level state)
+    fams = {}
+    for i, c in enumerate(cfgs):
+        fam = "Revolve*" if "Revolve" in c["cls"] else ("basic" if c["cls"] in record.ONLINE and c["cls"] != "TwoLevel" else c["cls"])
+        fams.setdefault(fam, []).append(i)
+    nsub = 0
+    for fam, idx in sorted(fams.items()):
+        sub = [cfgs[i] for i in idx]
+        hs = gen(ctx, len(sub), 3, 40, 8, 2, simulate=12 if q else 100, seed=ctx.seed + len(fam))
+        nsub += len(hs)
+        for t in replay(hs, sub, 0):
+            t["ref"] = idx[t["ref"]]
+            objs.append(t)
+    twins = [i for i, c in enumerate(cfgs) if c["cls"] == "TwoLevel"][:2] + [i for i, c in enumerate(cfgs) if c["cls"] == "Multistage"][:1]
+    ntwin = 0
+    for i in twins:
+        hs = [h for h in gen(ctx, 1, 2, 9 if q else 11, 1, 1) if sum(1 for op in h if op[0] == 1) == 2]
+        # drive both objects deep into their streams first, then the enumerated interleaving
+        pre = [[1, 1], [1, 1]] + [[2, 1], [2, 2]] * (8 if cfgs[i]["cls"] == "TwoLevel" else 5)
+        hs = [pre + [op for op in h if op[0] != 1] for h in hs[:: max(1, len(hs) // (150 if q else 1500))]]
+        ntwin += len(hs)
+        for t in replay(hs, [cfgs[i]], 0):
+            t["ref"] = i
+            objs.append(t)
     # shards: the references first, then object traces pointing back at them
     viols = []
     total = 0
@@ -186,6 +223,7 @@ def check(ctx):
            "pool_configurations": len(cfgs), "histories_exhaustive": len(ex),
            "exhaustive_box": f"2 configurations, 2 objects, depth {5 if q else 6}, 2 helper calls",
            "histories_simulated": len(sim), "simulated_depth": 60,
+           "histories_simulated_per_class_family": nsub, "histories_two_objects_one_configuration": ntwin,
            "samples": [{"history": ex[len(ex) // 2]}, {"history": sim[0][:25]}],
            "exhaustive": True,
            "rule": "every object stream of every history compared with the reference stream of its "
